@@ -161,6 +161,14 @@ namespace opensmt {
         }
 
         if (is_frac) {
+            // Both sides of the fraction need a digit and the denominator must not be zero
+            int slashPos = 0;
+            while (flo[slashPos] != '/') { slashPos++; }
+            bool denominatorNonZero = false;
+            for (int i = slashPos + 1; flo[i] != '\0'; i++) {
+                if (flo[i] != '0') { denominatorNonZero = true; }
+            }
+            if (slashPos == 0 or not denominatorNonZero) { throw strConvException(flo); }
             normalize(rat, flo, is_neg);
             return true;
         }
